@@ -14,6 +14,14 @@ RULE = ('same recipe generator and systematic sweep as C01, plus JSON stress '
         'serializer and walked by an independent conformance scanner. '
         'Non-trivial = at least one content section; distinct = recipe '
         'fingerprint.')
+RULE += (
+         ' Also: every third case is repeated with exotic-but-equivalent '
+         'argument objects (str/bytes/int subclass instances, OrderedDict / '
+         'dict subclasses with shuffled insertion order, tuples) and must '
+         'give identical bytes; groups of 2-4 independent writers run in '
+         'threads under the seeded baton scheduler and must each write what '
+         'they write alone. Process axes (DESIGN 2.8): 2 of 16 shards run '
+         'under python -O, 4 of 16 after a hostile warm-up of the library.')
 FLOOR = {'quick': 2000, 'thorough': 50000}
 REQUIRED_REACH = ['writer.py:']
 ASSUMPTIONS = [
